@@ -221,6 +221,11 @@ func exprPaths(n ast.Node) [][]eff {
 					res = cross(res, [][]eff{{eff{kind: "raw", name: "syswrite"}}})
 					return false
 				}
+				if pkg, ok := f.X.(*ast.Ident); ok && pkg.Name == "time" && f.Sel.Name == "Now" {
+					// a clock reading: event stamps must be taken under the lock (SkelLib.clock_ok)
+					res = cross(res, [][]eff{{eff{kind: "raw", name: "time.Now"}}})
+					return false
+				}
 				if pkg, ok := f.X.(*ast.Ident); ok && pkg.Name == "os" && rawOS[f.Sel.Name] {
 					res = cross(res, exprPathsArgs(v))
 					res = cross(res, [][]eff{{eff{kind: "raw", name: "os." + f.Sel.Name}}})
